@@ -343,7 +343,7 @@ func init() {
 			},
 			{
 				Name: "boundaries", Exhaustive: "for every length 1..40: every assignment from the 7-letter alphabet to the three septets around every 8-septet block boundary",
-				N: func(t fw.Tier) uint64 { return 40 * map[fw.Tier]uint64{fw.Quick: 3, fw.Thorough: 40}[t] },
+				N: func(t fw.Tier) uint64 { return 40 * map[fw.Tier]uint64{fw.Quick: 3, fw.Thorough: 200}[t] },
 				Run: func(c *fw.Case) {
 					n := int(c.Idx%40) + 1
 					base := c.R.Bytes(n)
@@ -372,7 +372,7 @@ func init() {
 				},
 			},
 			{
-				Name: "random", N: q(300000, 6000000),
+				Name: "random", N: q(300000, 40000000),
 				Run: func(c *fw.Case) {
 					n := c.R.Range(0, 200)
 					if c.R.Chance(1, 10) {
